@@ -55,7 +55,7 @@ let esk_s = function
      | CRsa v -> "R:" ^ hexnum_of_z v
      | CEcdh (xy, c) -> "E:" ^ hex_of_bytes xy ^ ":" ^ hex_of_bytes c
      | CElg (a, b) -> "G:" ^ hexnum_of_z a ^ ":" ^ hexnum_of_z b
-     | CNone -> "N")
+     | COpaque x -> "O:" ^ hex_of_bytes x)
   | SK (a, sp, ct) ->
     String.concat ":" ["SK"; hexnum_of_z a; hexnum_of_z sp.s_type; hexnum_of_z sp.s_hash; hex_of_bytes sp.s_salt;
                        hexnum_of_z sp.s_count; hex_of_bytes ct]
